@@ -257,6 +257,8 @@ func filterTableCases() []FilterCase {
 		`@[0, 1] > 1`, `@[0 to 1] > 1`, `@[1, 0] > 1`, `@.a[*] > 1`, `@[*] > 1 && @[*] < 1`, `(@[0, 1] > 1) is unknown`, `@[0] > @[1]`, `@[0, 5] > 1`, `@[0, 1] == @[1, 0]`, `@[*] > 1`, `@.a[0 to last] > 1`,
 		`exists(@[0, 1] ? (@ > 1).type())`, `exists(@[0, 1].abs() ? (@ > 1))`, `exists(-@[0, 1])`, `exists((@[0, 1] ? (@ > 1)) + 1)`, `exists(@.*[0] ? (@ > 1))`, `exists(@.a.b)`, `exists(@[0 to 1] ? (exists(@ ? (@ > 1))))`,
 		`@.keyvalue().value > 1`, `@.keyvalue().key == "a"`, `exists(@.keyvalue() ? (@.key == "b" && @.value > 1))`, `@[0, 1] starts with "a"`, `@[*] like_regex "^a"`, `exists(@[0, 1] ? (@ starts with "a"))`,
+		// a right operand rooted at $ that depends on the item through a subscript
+		`@[0] == $[1][@[1]]`, `@[0] < $[0][@[1]]`, `@[1] >= $[2][@[0]]`, `@.a == $[1].a[@.b]`, `exists($[0][@[0]])`, `@[0] == $[@[1]][0]`, `$[@[1]][0] == @[0]`,
 		// the right operand of starts with is never unwrapped: $p is an array, $q a string
 		`@[*] starts with $p`, `@[0] starts with $p`, `@[*] starts with $q`, `(@[*] starts with $p) is unknown`, `exists(@[*] ? (@ starts with $p))`, `@[*] starts with $p || @[*] starts with $q`, `@[1] starts with $q`,
 	}
@@ -266,6 +268,8 @@ func filterTableCases() []FilterCase {
 		`[{"a":5,"b":0},{"a":0,"b":5},{"a":0},{"b":7}]`,
 		`[["ab","x"],["x","ab"],[1,"ab"],["ab",1]]`,
 		`[[{"a":1},{"b":2}],[{"b":2},{"a":1}],[[5,0],[0]]]`,
+		`[[5,0],[0,5],[5,5],[0,0],[1,1],[0,1]]`,
+		`[{"a":[5,7],"b":0},{"a":7,"b":1},{"a":5,"b":1},{"a":7,"b":0}]`,
 	}
 	var out []FilterCase
 	for _, cd := range conds {
